@@ -16,7 +16,23 @@ if len(sys.argv) > 2 and os.path.exists(sys.argv[2]):
         f = line.rstrip("\n").split("\t")
         if len(f) >= 2 and f[0] != "DONE":
             robust[f[0]] = (f[1], f[2] if len(f) > 2 else "")
-manual = {}
+# rounds 3 and 4 (m5, m6): no full matrix run (the machine was shared with the sub-agents); what is recorded is the owning
+# quick check (dbg flavour, seed 1, scratch copy: tools/round3.sh) plus the other checks that were tried against the change
+manual = {
+    "C01-m5": ["C01 (after the long-token documents were added)"],
+    "C02-m5": ["C02"], "C04-m5": ["C04"], "C05-m5": ["C05"], "C07-m5": ["C07"], "C10-m5": ["C10"], "C12-m5": ["C12"], "C14-m5": ["C14"], "C16-m5": ["C16"],
+    "C03-m5": ["C03 (after the hash-boundary names were added to the soup)"],
+    "C06-m5": ["C05", "C07", "C06 (after H was allowed to rewrite)"],
+    "C08-m5": ["C07", "C08 (after the self-closing / unquoted templates were added)"],
+    "C09-m5": ["C09 (after the name bound was extended to svg / math islands)"],
+    "C11-m5": ["C10", "C11 (after the error-kind rule was added)"],
+    "C13-m5": ["C13 (after the inserting run was added to the meta cases)"],
+    "C15-m5": ["C15 (after the write_utf8_chunk histories were added)"],
+    "C17-m5": ["C17 (dbg flavour; after both drivers stream byte pieces through write_utf8_chunk)"],
+    "C18-m5": ["C04", "C18 (dbg flavour; after the many-distinct-names documents were added)"],
+}
+if os.path.exists(os.path.join(V, "seeded", "manual.json")):
+    manual.update(json.load(open(os.path.join(V, "seeded", "manual.json"))))
 # detections that need another flavour / a later generator than the matrix run used
 extra = {
     "C17-m2": ["C17 (asan flavour only: heap-use-after-free report; the dbg differential does not see it)"],
@@ -52,7 +68,7 @@ for d in sorted(os.listdir(os.path.join(V, "seeded"))):
         "what": what,
         "needs_to_manifest": needs,
         "verified": "reverse patch of the fix commit applies to HEAD, builds, and `cargo test --offline` still reports 182 passed / 0 failed (the defect predates the pinned suite)" if rev else "tools/confirm_mutant.sh: demo passes on the unmodified worktree; with the patch it builds (also with --features _integration_test,_verif_hooks), `cargo test --offline` still reports 182 passed / 0 failed, and the demo fails",
-        "ran_against_checks": "tools/mutant.sh <patch> " + prop + " (quick tier, seed 1) and tools/matrix.sh (dbg flavour, all checks)",
+        "ran_against_checks": ("tools/round3.sh: owning quick check " + prop + " (dbg flavour, seed 1) on a scratch copy, re-run after each strengthening; other checks as listed" if re.search(r"-m[56]$", d) else "tools/mutant.sh <patch> " + prop + " (quick tier, seed 1) and tools/matrix.sh (dbg flavour, all checks)"),
         "detected_by": detected,
         "owning_check_at_seeds_11_12_13": {"detections": robust[d][0], "violation_keys": robust[d][1]} if d in robust else None,
     }
